@@ -106,6 +106,7 @@ def _worker(prop, mode, base, wid, nworkers, deadline, max_runs, stop, wfd, star
     stats = {}
     errors = []
     viols = []
+    per_class = {}
     i = start_index + wid
     n = 0
     try:
@@ -114,7 +115,11 @@ def _worker(prop, mode, base, wid, nworkers, deadline, max_runs, stop, wfd, star
             merge_stats(stats, s)
             errors.extend(e)
             if v:
-                viols.extend(v[:3])
+                for vv in v[:6]:
+                    kc = prop.violation_class(vv)
+                    per_class[kc] = per_class.get(kc, 0) + 1
+                    if per_class[kc] <= 8:
+                        viols.append(vv)
                 if prop.stop_on_violation(v):
                     stop[0] = 1
                     break
